@@ -114,7 +114,9 @@ def check_pair(kind, dims, la, lb, viol):
     if not ga.compatible_with(gb) or not gb.compatible_with(ga):
         viol.append(f"C15 two layouts of one geometry are not compatible: {tag}")
         return
-    if (ga == gb) != (la[1:3] == lb[1:3] and True):
+    # (a degenerate axis has no direction: finam normalises its flag to increasing)
+    eff = lambda lay: (lay[1], tuple(up or dims[k] == 1 for k, up in enumerate(lay[2])))
+    if (ga == gb) != (eff(la) == eff(lb)):
         # equal iff same axes_reversed and directions (order does not matter for structured grids)
         viol.append(f"C15 grid equality wrong ({ga == gb}): {tag}")
         return
@@ -143,10 +145,47 @@ def check_pair(kind, dims, la, lb, viol):
             return
 
 
+def check_unstructured(viol):
+    """unstructured meshes with mixed cell types (cells of fewer nodes are padded with -1): centres, data points, casting"""
+    n = 0
+    NN = {int(fm.CellType.TRI): 3, int(fm.CellType.QUAD): 4}
+    pts = np.array([[0.0, 0.0], [1.5, 0.0], [1.5, 1.2], [0.0, 1.2], [3.0, 0.3], [3.2, 1.9], [1.4, 2.4], [0.1, 2.2]])
+    meshes = {
+        "quad+3 tri": (np.array([[0, 1, 2, 3], [1, 4, 2, -1], [4, 5, 2, -1], [3, 2, 6, -1]]), [fm.CellType.QUAD] + [fm.CellType.TRI] * 3),
+        "tri first": (np.array([[1, 4, 2, -1], [0, 1, 2, 3], [3, 2, 6, 7]]), [fm.CellType.TRI, fm.CellType.QUAD, fm.CellType.QUAD]),
+        "all tri": (np.array([[0, 1, 2], [0, 2, 3], [1, 4, 2]]), [fm.CellType.TRI] * 3),
+    }
+    for name, (cells, types) in meshes.items():
+        for loc in (Location.CELLS, Location.POINTS):
+            n += 1
+            tag = f"unstructured {name} location={loc.name}"
+            g = fm.UnstructuredGrid(points=pts, cells=cells, cell_types=np.array(types), data_location=loc)
+            want = np.array([pts[c[: NN[int(t)]]].mean(axis=0) for c, t in zip(cells, types)])
+            if not np.allclose(np.asarray(g.cell_centers), want, atol=1e-12):
+                viol.append(f"C14 cell_centers != mean of the cell's nodes: {np.asarray(g.cell_centers).tolist()} expected {want.tolist()}: {tag}")
+                return n
+            dp = want if loc == Location.CELLS else pts
+            if tuple(g.data_shape) != (len(dp),) or int(g.data_size) != len(dp) or not np.allclose(np.asarray(g.data_points), dp):
+                viol.append(f"C14 data_points / data_shape do not follow the data location: {tag}")
+                return n
+            g2 = g.copy()
+            _ = (g2.data_shape, g2.data_size)
+            g2.data_location = Location.POINTS if loc == Location.CELLS else Location.CELLS
+            dp2 = pts if loc == Location.CELLS else want
+            if tuple(g2.data_shape) != (len(dp2),) or not np.allclose(np.asarray(g2.data_points), dp2):
+                viol.append(f"C14 data shape / points do not follow a data_location change: {tag}")
+                return n
+            if not g.compatible_with(g.copy()) or g.compatible_with(g2):
+                viol.append(f"C15 compatible_with wrong for a copy / a copy with another data location: {tag}")
+                return n
+    return n
+
+
 def main():
     thorough = "--tier" in sys.argv and sys.argv[sys.argv.index("--tier") + 1] == "thorough"
     viol, n, known = [], 0, []
-    dimsets = [(2,), (3,), (2, 3), (3, 2), (4, 3), (3, 4), (2, 2), (2, 3, 2), (3, 2, 4), (4, 3, 2)]
+    dimsets = [(2,), (3,), (2, 3), (3, 2), (4, 3), (3, 4), (2, 2), (2, 3, 2), (3, 2, 4), (4, 3, 2),
+               (1,), (3, 1), (1, 3), (3, 1, 2)]     # with degenerate axes
     if thorough:
         dimsets += [(5,), (4, 4), (3, 3, 3), (2, 4, 3), (4, 2, 3)]
     for kind in ("uniform", "rectilinear"):
@@ -171,6 +210,8 @@ def main():
                 break
         if viol:
             break
+    if not viol:
+        n += check_unstructured(viol)
     res = {"evaluations": n, "distinct_nontrivial": n, "violations": [{"case": v} for v in viol[:3]],
            "rule": "all layouts (order, axes_reversed, per-axis direction, location) of uniform and rectilinear grids over the listed dims; ordered layout pairs through a real link (every 7th pair for 3-D in the quick tier); distinct = (kind, dims, layout[, layout])",
            "bound": f"dims {dimsets}", "exhaustive": thorough}
